@@ -45,7 +45,7 @@ Print Assumptions C05_gaussian_tail.
    (2) the same as Coquelicot's generalised Riemann integral over (-oo, best];
    (3) as the generalised Riemann integral of max(best - y, 0) * density over the whole real line. *)
 Theorem C05_ei_is_expected_improvement mu sigma best : 0 < sigma ->
-  is_lim (fun a => RInt (fun y => (best - y) * (pdf ((y - mu) / sigma) / sigma)) a best) m_infty (sigma * G ((best - mu) / sigma)) /\
+  is_lim (fun a => RInt (fun y => (best - y) * pdf ((y - mu) / sigma) / sigma) a best) m_infty (sigma * G ((best - mu) / sigma)) /\
   is_RInt_gen (fun y => (best - y) * (pdf ((y - mu) / sigma) / sigma)) (Rbar_locally m_infty) (at_point best)
               (sigma * G ((best - mu) / sigma)) /\
   is_RInt_gen (fun y => Rmax (best - y) 0 * (pdf ((y - mu) / sigma) / sigma)) (Rbar_locally m_infty) (Rbar_locally p_infty)
@@ -53,7 +53,7 @@ Theorem C05_ei_is_expected_improvement mu sigma best : 0 < sigma ->
   (forall y, 0 < pdf ((y - mu) / sigma) / sigma) /\
   is_RInt_gen (fun y => pdf ((y - mu) / sigma) / sigma) (Rbar_locally m_infty) (Rbar_locally p_infty) 1.
 Proof.
-  intros Hs. split; [exact (ei_is_expected_improvement_lim mu sigma best Hs)|split].
+  intros Hs. split; [exact (ei_is_expected_improvement_lim' mu sigma best Hs)|split].
   - exact (ei_is_expected_improvement_gen mu sigma best Hs).
   - split; [exact (ei_is_expected_improvement_line mu sigma best Hs)|split].
     + exact (ndens_pos mu sigma Hs).
